@@ -278,4 +278,50 @@ example : parseTime "1s 1m" = none := by decide
 example : parseTime "1.5.5s" = none := by decide
 example : parseTime "" = some 0 := by decide
 
+
+/-- **Completeness on the strings people write.**  Any sequence of groups `<white space><whole number><unit>` with
+    units in the order d, h, m, s, ms, us, ns (each at most once), no white space before a leading `d` group, is
+    accepted, and its value is the sum of number × unit; with a leading `-` it is the negated sum. -/
+theorem parse_canonical (gs : List Grp) (hwf : ∀ g ∈ gs, g.WF)
+    (hinc : strictlyIncreasing (gs.map (·.unit)) = true)
+    (hlead : ∀ g, gs.head? = some g → g.pre = [] ∨ g.unit ≠ 0) :
+    matchFull (strs gs) = some (((gs.map Grp.ns).sum : Nat) : Int) ∧
+    matchFull ('-' :: strs gs) = some (-(((gs.map Grp.ns).sum : Nat) : Int)) := by
+  have hbody : matchBody (strs gs) = some (gs.map Grp.tok) := by
+    unfold matchBody
+    rw [lexToks_strs gs hwf _ (by have := length_le_strs gs hwf; omega)]
+    have hunits : (gs.map Grp.tok).map (·.unit) = gs.map (·.unit) := by simp [Grp.tok]
+    simp only [hunits, hinc, Bool.true_and, Bool.false_and, Bool.not_false, Bool.and_true]
+    cases gs with
+    | nil => simp [strs]
+    | cons g gs' =>
+      simp only [List.map_cons, List.head?_cons]
+      rcases hlead g rfl with hp | hu
+      · -- no leading white space: the first character is a digit
+        have hg := hwf g (by simp)
+        obtain ⟨d0, ds, hd⟩ : ∃ d0 ds, g.digits = d0 :: ds := by
+          cases h : g.digits with
+          | nil => exact absurd h hg.2.1
+          | cons a b => exact ⟨a, b, rfl⟩
+        have hd0 : isDigit d0 = true := by
+          have := hg.2.2.1; rw [hd] at this; simp only [List.all_cons, Bool.and_eq_true] at this; exact this.1
+        simp [strs, Grp.str, hp, hd, digit_not_space d0 hd0]
+        split <;> rfl
+      · have : (decide ((Grp.tok g).unit = 0)) = false := by simp [Grp.tok, hu]
+        simp [this]
+        split <;> rfl
+  have hsum : ((gs.map Grp.tok).map tokNs).sum = (gs.map Grp.ns).sum := by
+    simp only [List.map_map]; congr 1; apply List.map_congr_left; intro g _; exact tokNs_tok g
+  constructor
+  · unfold matchFull
+    rw [head_not_minus gs hwf]
+    simp only [hbody, hsum, Bool.false_eq_true, ↓reduceIte]
+  · unfold matchFull
+    simp only [splitSign, hbody, hsum, ↓reduceIte]
+
+/-- non-vacuity: "1h 30m15s" -/
+example : parseTime "1h 30m15s" = some 5415000000000 := by decide
+example : (⟨[], ['1'], 1⟩ : Grp).str ++ (⟨[' '], ['3', '0'], 2⟩ : Grp).str ++ (⟨[], ['1', '5'], 3⟩ : Grp).str
+    = "1h 30m15s".toList := by decide
+
 end Verif.C01
